@@ -65,19 +65,24 @@ public:
 
     // decode the frequency writes (A4 then A0, followed by key-on) of the tap records of one call
     static Run *&logRun() { static Run *r = NULL; return r; }   // every decoded frequency write goes into the run's event log (determinism gates compare it)
+    struct CurDt { uint8_t v[4]; unsigned mask; CurDt() : mask(0) { memset(v, 0, 4); } };
+    static std::map<std::pair<const void *, unsigned>, CurDt> &curDt() { static std::map<std::pair<const void *, unsigned>, CurDt> m; return m; }
     static std::vector<Write> decode(const void *synth)
     {
         std::vector<Write> out; std::map<unsigned, unsigned> a4; std::map<unsigned, std::vector<std::pair<unsigned, unsigned> > > dt;
         for(size_t k = 0; k < g_tap.recs.size(); ++k)
         {
             const TapRec &t = g_tap.recs[k]; if(t.synth != synth || t.isPan) continue;
-            if(t.reg >= 0x30 && t.reg < 0x40 && (t.reg & 3) != 3) { unsigned c = t.chip * 6 + t.port * 3 + (t.reg & 3); dt[c].push_back(std::make_pair((unsigned)((t.reg - 0x30) >> 2), (unsigned)t.val)); }
+            if(t.reg >= 0x30 && t.reg < 0x40 && (t.reg & 3) != 3) { unsigned c = t.chip * 6 + t.port * 3 + (t.reg & 3); dt[c].push_back(std::make_pair((unsigned)((t.reg - 0x30) >> 2), (unsigned)t.val)); CurDt &cd = curDt()[std::make_pair(synth, c)]; cd.v[((t.reg - 0x30) >> 2) & 3] = (uint8_t)t.val; cd.mask |= 1u << (((t.reg - 0x30) >> 2) & 3); }
             else if(t.reg >= 0xA4 && t.reg <= 0xA6) a4[t.chip * 6 + t.port * 3 + (t.reg - 0xA4)] = t.val;
             else if(t.reg >= 0xA0 && t.reg <= 0xA2)
             {
                 unsigned c = t.chip * 6 + t.port * 3 + (t.reg - 0xA0); Write w; w.chan = c; unsigned ft = (a4[c] << 8) | t.val; w.block = (ft >> 11) & 7; w.fnum = ft & 0x7FF; w.haveDtfm = false;
                 std::vector<std::pair<unsigned, unsigned> > &d = dt[c];
                 if(d.size() >= 4) { w.haveDtfm = true; for(size_t q = d.size() - 4; q < d.size(); ++q) w.dtfm[d[q].first & 3] = (uint8_t)d[q].second; }
+                // the detune/multiple bytes the chip holds for this channel at the moment of the frequency write (whenever they were written): the sounding
+                // frequency is F-number x multiple, so inside the native range they have to be the instrument's own also when this call did not write them
+                { CurDt &cd = curDt()[std::make_pair(synth, c)]; if(!w.haveDtfm && cd.mask == 0xF) { w.haveDtfm = true; memcpy(w.dtfm, cd.v, 4); } }
                 d.clear(); out.push_back(w);
                 if(logRun()) { logRun()->log.add(w.chan); logRun()->log.add(w.block); logRun()->log.add(w.fnum); }
             }
@@ -89,7 +94,7 @@ public:
     {
         SimFsScope fs; g_fs.reset();
         tapInstall(true);
-        logRun() = &run;
+        logRun() = &run; curDt().clear();
         const int family = (int)p.get("family", 0);
         const double clock = family ? 7987200.0 : 7670454.0;
         Rng br(mix64((uint64_t)p.get("bankseed"), 0xC10)); BankGenOpts bo; GenWopn gw = genWopn(br, bo);
